@@ -76,6 +76,9 @@ def c01(tier):
     if tier == 'thorough':
         sweep_check(chk, "u32full", sets.u32_full_set(), 'get', 'fast', full_n=32, kinds='bun')
         chk.bounds.append("u32 base: all 2^32 raw values for the boundary + non-contiguous boundary families")
+    acc = optional_accepted(chk, 'quick')
+    if acc:
+        sweep_check(chk, "optional-quick", acc, 'get', prof, full_w=8)
     if rep and rep.get('distinct_outcomes', 0) < rep.get('fields', 0):
         core.vacuous("fewer distinct getter results than fields")
     return chk.finish()
